@@ -49,3 +49,13 @@ Qed.
 
 Lemma L_sanitize_total : forall s, ref_sanitize s <> Panic /\ ref_sanitize s <> OutOfFuel.
 Proof. intros s. destruct (ref_sanitize_valid s) as (o & E & _). rewrite E. split; discriminate. Qed.
+
+(* a name that name_partial accepts is returned unchanged by the sanitiser *)
+Lemma L_sanitize_keeps_valid : forall s, is_ok (ref_name_partial s) = true -> ref_sanitize s = Ok s.
+Proof. intros s H. rewrite (proj1 (ref_name_partial_ok s)) in H. exact (ref_sanitize_id s H). Qed.
+
+Lemma L_sanitize_idempotent : forall s o, ref_sanitize s = Ok o -> ref_sanitize o = Ok o.
+Proof.
+  intros s o E. destruct (L_sanitize_valid s) as (o' & E' & V & _).
+  rewrite E in E'. injection E' as <-. exact (L_sanitize_keeps_valid o V).
+Qed.
